@@ -12,3 +12,32 @@ class Engine(DbEngine):
     rule = "histories with removed/replaced/deleted/ephemeral/failed-store leftovers, address markers with empty/long(183..476)/binary d values, extra tables with rows; reopen and rebuild inserted at random positions (several per history). oracle: the full observation dump (every id, address, counter, extra table, query battery) is identical before and after; after rebuild the event space equals the retrievable events' aligned sizes exactly and the backup files exist. non-trivial = history with >= 2 stores"
     trusted = DbEngine.db_trusted
     assumptions = ["rebuild's chown branch is not exercised"]
+
+    def generate(self, rng, tier):
+        import random
+        from dbgen import HistGen, AUTHORS, fake_id
+        out = super().generate(rng, tier)
+        # the event map filled to its very last byte (end marker == file length; debug profile: 2048-byte chunks), then
+        # reopened / rebuilt without anything appended in between
+        for i in range(16 if tier == "quick" else 300):
+            sub = random.Random(rng.getrandbits(64))
+            g = HistGen(sub, {"new": 1}, 0).run()
+            end = 8
+            n = sub.choice([0, 1, 3, 6])
+            for j in range(n + 1):
+                e = g.new_event(kind=1, pk=sub.choice(AUTHORS), tags=[])
+                base = end if end % 8 == 0 else end + 8 - end % 8
+                if j == n:
+                    target = ((base + 152) // 2048 + sub.choice([1, 1, 2])) * 2048
+                    e["content"] = b"F" * (target - base - 152 - sub.choice([0, 0, 0, 8]))
+                else:
+                    e["content"] = b"c" * sub.choice([0, 7, 100, 1900, 2048])
+                e["id"] = fake_id(e)
+                g.op_store(e)
+                g.note_event(e)
+                end = base + 152 + len(e["content"])
+            for _ in range(sub.choice([1, 2])):
+                g.ops.append((sub.choice(["reopen", "rebuild", "rebuild"]),))
+            g.g_store_new()
+            out.append(("exact-fill", g.render()))
+        return out
